@@ -328,3 +328,180 @@ _c13_base = contracts
 
 def contracts():
     return _c13_base() + [get_value_generator_contract("plain"), get_value_generator_contract("unknown")]
+
+
+# ---------------------------------------------------------------------------------------------
+# Parameters._cls_parameters — which Parameter object `.param` shows for a name
+# ---------------------------------------------------------------------------------------------
+CLS_PARAMS_REPLAY = '''import sys, os, inspect, itertools
+sys.path.insert(0, os.environ.get('PYVC_REPO', '/repo'))
+import param
+bad = []
+def check(label, cls, names):
+    for n in names:
+        gov = inspect.getattr_static(cls, n)            # what Python's MRO resolves
+        shown = cls.param[n]
+        if shown is not gov:
+            bad.append('%s: %s.param[%r] is the Parameter of %s, attribute access is governed by the one of %s' % (
+                label, cls.__name__, n, getattr(shown.owner, '__name__', '?'), getattr(gov.owner, '__name__', '?')))
+        inst = cls()
+        if inst.param[n].default != gov.default and inst.param[n] is not gov:
+            bad.append('%s: instance .param[%r].default == %r, the class default is %r' % (label, n, inst.param[n].default, gov.default))
+for how in ('declare', 'assign', 'add'):
+    A = type('A', (param.Parameterized,), {'x': param.Number(1), 'y': param.String('a')})
+    B = type('B', (A,), {})
+    C = type('C', (A,), {'x': param.Number(5)} if how == 'declare' else {})
+    if how == 'assign':
+        C.x = 5
+    if how == 'add':
+        C.param.add_parameter('x', param.Number(5))
+    for order in ((B, C), (C, B)):
+        D = type('D', order, {})
+        check('diamond D(%s) how=%s' % (','.join(k.__name__ for k in order), how), D, ['x', 'y'])
+        E = type('E', (D,), {})
+        check('below the diamond, how=%s' % how, E, ['x', 'y'])
+for depth in (1, 2, 3):
+    K = type('K0', (param.Parameterized,), {'x': param.Number(1)})
+    for i in range(depth):
+        K = type('K%d' % (i + 1), (K,), {'x': param.Number(10 + i)} if i % 2 == 0 else {})
+    check('chain depth %d' % depth, K, ['x'])
+if bad:
+    print('REPRODUCED: C13 the .param namespace does not show the Parameter that governs attribute access:')
+    for b in bad[:8]:
+        print('  ', b)
+    sys.exit(1)
+print('NOT-REPRODUCED'); sys.exit(0)
+'''
+
+
+def cls_parameters_contract():
+    """`Parameters._cls_parameters` on a class whose cache is empty, for an ARBITRARY class list
+    (`classlist(cls)`: base first, the class itself last), ARBITRARY class dictionaries and an arbitrary
+    name k: the dictionary built (returned AND cached) shows for k the Parameter declared by the LAST
+    class of the list that declares one — the class nearest in the MRO, i.e. the descriptor attribute
+    access resolves to — and shows nothing for k when no class declares a Parameter under k."""
+    from pyvc import builtins_lib as bl
+    from pyvc.loops import LoopSpec
+    from pyvc.objects import sym_field
+    holder = {}
+    dkeys = z3.Function("classdict_names", vm.V, vm.SeqV)
+    dvals = z3.Function("classdict_values", vm.V, z3.ArraySort(vm.V, vm.V))
+
+    def configure(I):
+        I.sym_fields = {"__dict__"}
+
+        def classlist(I, st, fv, args, kwargs, ctx):
+            return [(st, Sym(holder["mro"]))]
+        I.contracts["classlist"] = classlist
+
+        def vmethod(I, st, name, selfv, args, kwargs, ctx):
+            if name == "items" and isinstance(selfv, Sym):
+                # the items of a class dictionary: one (name, value) pair per name, names distinct
+                d = I.term(selfv)
+                r = I.alloc_dict(st, keys=dkeys(d), vals=dvals(d))
+                holder["cur_dict"] = d
+                return [(st, FuncV("builtin", name="$dictitems", self=r))]
+            return None
+        I.lib["$value_method"] = vmethod
+
+    def is_param(I, st, t):
+        f = bl.isinstance_formula(I, st, Sym(t), ClsV("Parameter"))
+        return z3.BoolVal(f) if isinstance(f, bool) else f
+
+    def declares(I, st, c):
+        d = z3.Select(holder["Fd"], c)
+        k = holder["k"]
+        return z3.And(z3.Contains(dkeys(d), z3.Unit(k)), is_param(I, st, z3.Select(dvals(d), k)))
+
+    def setup(I, st):
+        U = I.U
+        cls = I.alloc_obj(st, "ParameterizedMetaclass", lazy=True, label="cls")
+        priv = I.alloc_obj(st, "_ClassPrivate", lazy=False, label="cls._param__private")
+        st.heap[priv.oid].fields["params"] = I.alloc_dict(st)          # the cache is empty
+        st.heap[cls.oid].fields["_param__private"] = priv
+        self_ = I.alloc_obj(st, "Parameters", lazy=False, label="self_")
+        st.heap[self_.oid].fields.update({"cls": cls, "self": Conc(None)})
+        mro = U.fresh("classlist")
+        st.pc += [vm.ty(mro) == vm.TAG["tuple"], vm.tlen(mro) >= 1]
+        U.well_typed(mro)
+        k = U.fresh("some_name")
+        st.pc.append(vm.ty(k) == vm.TAG["str"])
+        holder.update({"mro": mro, "k": k, "Fd": sym_field(I, st, "__dict__"), "priv": priv})
+        n = vm.tlen(mro)
+        lq = U.fresh_int("last_declaring")
+        holder["lq"] = lq
+        nolater = S.fold(I, "no_later_class_declares_the_name", lambda x, i: z3.Implies(i > lq, z3.Not(declares(I, st, x))), indexed=True)
+        holder["nolater"] = nolater
+        st.pc.append(z3.And(nolater.tfn(mro, n), z3.Or(lq == -1, z3.And(lq >= 0, lq < n, declares(I, st, vm.titem(mro, lq))))))
+        U.well_typed(vm.titem(mro, lq))
+        found = I.src.find_method("Parameters", "_cls_parameters")
+        fv = I.bound_method(self_, found)
+        return fv, [], {}, {"priv": priv, "symbols": {}}
+
+    def pd(st):
+        r = st.env.get("paramdict")
+        if not (isinstance(r, Ref) and st.heap[r.oid].kind == "dict"):
+            raise OutOfReach("`paramdict` is no longer one dict updated in place")
+        return st.heap[r.oid]
+
+    def want(I, st):
+        return z3.Select(dvals(z3.Select(holder["Fd"], vm.titem(holder["mro"], holder["lq"]))), holder["k"])
+
+    def inv_outer(I, st, pre):
+        h = pd(st)
+        k, lq = holder["k"], holder["lq"]
+        has = z3.Contains(h.keys, z3.Unit(k))
+        holder["before"] = (h.keys, h.vals)
+        return z3.And(z3.Implies(z3.And(lq >= 0, lq < pre.n), z3.And(has, z3.Select(h.vals, k) == want(I, st))),
+                      z3.Implies(lq == -1, z3.Not(has)))
+
+    def inv_inner(I, st, pre):
+        h = pd(st)
+        k = holder["k"]
+        bk, bv = holder["before"]
+        d = holder["cur_dict"]
+        seen = z3.Contains(pre.seq, z3.Unit(k))
+        has = z3.Contains(h.keys, z3.Unit(k))
+        took = z3.And(seen, is_param(I, st, z3.Select(dvals(d), k)))
+        return z3.If(took, z3.And(has, z3.Select(h.vals, k) == z3.Select(dvals(d), k)),
+                     z3.And(has == z3.Contains(bk, z3.Unit(k)), z3.Implies(has, z3.Select(h.vals, k) == z3.Select(bv, k))))
+
+    def havoc(I, st):
+        h = pd(st)
+        h.keys = I.U.fresh_seq("shown_names")
+        h.vals = z3.Const("shown!%d" % I.new_oid(), z3.ArraySort(vm.V, vm.V))
+        h.ckeys = None
+        h.fields.pop("$entries", None)
+        for f in [f for f in h.fields if isinstance(f, tuple)]:
+            h.fields.pop(f)
+
+    def outer_facts(I, st, x, i):
+        return [holder["nolater"].elim(holder["mro"], vm.tlen(holder["mro"]), i)]
+
+    def post(I, info, st, oc):
+        if isinstance(oc, Raise):
+            return [("does-not-raise", z3.BoolVal(False))]
+        k, lq = holder["k"], holder["lq"]
+        cached = st.heap[info["priv"].oid].fields.get("params")
+        if not (isinstance(oc, Ref) and st.heap[oc.oid].kind == "dict"):
+            return [("returns the dictionary it built", z3.BoolVal(False))]
+        h = st.heap[oc.oid]
+        has = z3.Contains(h.keys, z3.Unit(k))
+        return [("shows for a name the Parameter of the nearest class (last in the class list) that declares one",
+                 z3.Implies(lq >= 0, z3.And(has, z3.Select(h.vals, k) == want(I, st)))),
+                ("shows nothing for a name no class declares a Parameter under", z3.Implies(lq == -1, z3.Not(has))),
+                ("the dictionary returned is the one cached for the class", z3.BoolVal(isinstance(cached, Ref) and cached.oid == oc.oid))]
+    loops = {("Parameters._cls_parameters", "classlist"): LoopSpec("classlist", inv=inv_outer, heap=havoc, name="classes-base-first", elem_facts=outer_facts),
+             ("Parameters._cls_parameters", "__dict__.items()"): LoopSpec("__dict__.items()", inv=inv_inner, heap=havoc, name="names-of-one-class")}
+    c = FunctionContract("%s:Parameters._cls_parameters" % MOD, PROP, setup, post, configure=configure, loops=loops,
+                         name="Parameters._cls_parameters[arbitrary hierarchy]")
+    c.static_replay = CLS_PARAMS_REPLAY
+    c.static_witness = "diamonds whose earlier base inherits and whose later base declares / assigns / adds the parameter; chains"
+    return c
+
+
+_c13_base3 = contracts
+
+
+def contracts():
+    return _c13_base3() + [cls_parameters_contract()]
